@@ -10,6 +10,11 @@ CHECKS = {
          "Trusts the reference models (DESIGN Appendix B) and the documented relaxations: ET after expiry may be 0 or PT; exact comparison suspended after PT changes while timing. Clock is written directly (stub).",
          "DESIGN.md section 3 C04"),
  # id: (category, technique, level text, level_note, design_ref)
+ "C01": ("exploration",
+         "deterministic simulation: ProgGen workloads x boundary-biased input streams x clock stalls/jumps to i64::MAX x statement-budget faults at sampled and at ALL points of a cycle x fault clearing/restarts; per-cycle invariants (outcome class, no panic/abort, no frame left, bounded statement count)",
+         "Partial claim (fault/time/input clauses): seeded search over generated typed programs (all integer widths, reals, bit strings, TIME, STRING, enums, arrays, structs, functions, stateful FBs, std FBs, every loop/branch form) driven through histories of cycles with boundary inputs, extreme clocks and budget faults landing inside any nesting of calls and loops; after every cycle the outcome must be Ok or a value-dependent fault, nothing may panic or abort, no call frame may remain and the statement count must stay bounded. Agreement of checker and interpreter over the whole grammar is exercised as a by-product only. Sampling, not proof.",
+         "Trusts ProgGen's loop bounds (termination cap), the H2 budget hook, and the value-dependent fault set taken from the property text. Static-class errors raised on slots that already hold a drifted type tag are attributed to the open C03 finding (signature .../with-tag-drift).",
+         "DESIGN.md section 3 C01"),
  "C07": ("exploration",
          "deterministic simulation: seeded address maps x churning/fault-injecting logging drivers x debugger I/O writes and forces x faulted cycles, lock-step byte-level image model and call-phase oracle",
          "Seeded search over address maps (all 15 elementary types, X/B/W/D/L, overlapping/adjacent spans) and cycle histories with drivers that change their bytes on every read call; per cycle the merged driver/runtime event log must be reads-once -> program code -> writes-once, every program copy of every input must equal the independent decode of the bytes latched in that cycle, the published image must equal previous image + independent encodes (nothing outside addressed spans changes) and a faulted cycle must not deliver program-computed outputs. Sampling, not proof.",
